@@ -11,7 +11,6 @@ TcpAsyncCtx *g_tcp_p;
 #include "contracts/net_tcp_async_dispatch.h"
 
 static TcpAsyncCtx tcp;
-static unsigned char reqraw[8];
 
 void harness(void) {
 	struct KSI_AsyncClient_st parent; struct KSI_AsyncHandle_list_st rq; struct KSI_OctetString_list_st sq; int res, i;
@@ -24,11 +23,12 @@ void harness(void) {
 	tcp.sockfd = nondet_int(); tcp.inLen = nondet_size(); tcp.socketReady = nondet_bool();
 	tcp.roundStartAt = nondet_ll(); tcp.roundCount = nondet_size(); tcp.connectedAt = nondet_ll();
 	g_tcp_p = &tcp; g_inbuf_p = tcp.inBuf; g_inlen_p = &tcp.inLen; g_inbuf_size = sizeof(tcp.inBuf);
-	g_in = nondet_ull(); g_out = nondet_ull(); g_pending = 0; g_peer_closed = 0; g_sock_closed = 0; g_tcp_env_failed = 0;
+	g_in = nondet_ull(); g_out = nondet_ull(); g_recv_calls = 0; g_pending = 0; g_peer_closed = 0; g_sock_closed = 0; g_tcp_env_failed = 0;
 	g_revents = (short)nondet_int(); g_now = nondet_ll();
-	g_q_len = nondet_size(); g_req_raw_p = reqraw;
+	g_q_len = nondet_size(); g_req_raw_p = malloc(1); __CPROVER_assume(g_req_raw_p != NULL);
 	g_req.state = nondet_int(); g_req.len = nondet_size(); g_req.sentCount = nondet_size(); g_req.raw = g_req_raw_p; g_req.reqTime = nondet_ll();
 	g_req_len0 = g_req.len;
+	__CPROVER_assert(sizeof(tcp.inBuf) == 131078ul && KSI_ASYNC_STATE_WAITING_FOR_DISPATCH == 1, "constants used in the loop invariants");
 	res = dispatch(&tcp);
 	REACH("returned");
 	if (res == KSI_OK && g_delivered > 0) REACH("delivered a PDU");
